@@ -221,3 +221,77 @@ def c06(ctx):
 
 
 REGISTRY = {"C03": c03, "C14": c14, "C06": c06}
+
+
+def c05(ctx):
+    prop = "C05"
+    quick = ctx.tier == "quick"
+    ctx.build_harness()
+    if not quick:
+        _set_const(ctx, "MC_Reader.cfg", "MaxData", 6)
+        _set_const(ctx, "MC_Reader.cfg", "MaxLimit", 7)
+    r = ctx.tlc_expect_ok("MC_Reader.tla", "MC_Reader.cfg", timeout=6000, xmx="24g")
+    live = ctx.tlc_expect_ok("MC_Reader.tla", "MC_Reader_live.cfg", workers=8, timeout=3000)
+    rp = os.path.join(ctx.scratch, "readervec.json")
+    ctx.vdrive(["readervec", "-in", r["out"], "-out", rp])
+    os.remove(r["out"])
+    rep = ctx.report(rp)
+    tdir = os.path.join(ctx.scratch, "reader")
+    os.makedirs(tdir)
+    rp2 = os.path.join(ctx.scratch, "readertrace.json")
+    ctx.vdrive(["readertrace", "-outdir", tdir, "-corpus", CORPUS, "-seed", ctx.seed, "-out", rp2, "-shards", core.NCPU, "-chunkings", 4 if quick else 40])
+    trep = ctx.report(rp2)
+    results = ctx.validate_traces("TraceReader.tla", "TraceReader.cfg", sorted(glob.glob(os.path.join(tdir, "*.ndjson"))))
+    violations = [v for v in rep["violations"] if v["property"] == prop]
+    for res in results:
+        lines = None
+        for t in res["tuples"]:
+            if t[0] == "VIOLATION" and t[1] == prop:
+                if lines is None:
+                    lines = open(res["trace_file"]).readlines()
+                # find the begin record of this case
+                i = t[2] - 1
+                while i > 0 and '"ev":"begin"' not in lines[i]:
+                    i -= 1
+                begin = json.loads(lines[i])
+                v = dict(property=prop, kind="trace:" + t[3], limit=begin.get("limit"), input_text="sample=%s dlen=%s limit=%s fault=%s" % (begin.get("sample"), begin.get("dlen"), begin.get("limit"), begin.get("fault")),
+                         detail="TraceReader.tla: %s at event %d: %s" % (t[3], t[2], lines[t[2] - 1].strip()))
+                v["key"] = "C05|%s|%s|%s|%s" % (t[3], begin.get("sample"), begin.get("limit"), begin.get("fault"))
+                violations.append(v)
+    cov = dict(
+        evaluations=rep["evaluations"] + trep["evaluations"],
+        distinct_nontrivial=rep["extra"]["with_fault_before_header_complete"] + trep["extra"]["cases_with_surfaced_fault"],
+        rule="model: data length 0..%s x limit 0..%s x injected fault at every offset (or none) x every reply schedule of a conforming reader (short reads, (0,nil), EOF with or after the last bytes, fault with or after data); invariants ReadsStopAtLimit, NoFaultMeansPrefix, FaultSurfaces, OnlyInjected; termination under fairness. every behaviour is replayed with a scripted reader over 6 real payloads (unit = 2 bytes) comparing error identity, bytes consumed and the type with Detect on the same header; DetectFile on temp files, a missing path and a directory. traces: corpus x limits {0,1,7,3072,len-1,len,len+1} x chunking styles x faults at random offsets, every Read call logged and validated by TraceReader.tla. non-trivial = cases with a fault before the header was complete" % (("4", "5") if quick else ("6", "7")),
+        exhaustive=True,
+        drift=dict(count=rep["drift"], samples=rep.get("drift_samples", [])[:3]),
+        samples=rep["samples"][:4] + trep["samples"][:4],
+    )
+    return core.finish(ctx, violations, cov, ["io.ReadFull / io.ReadAll as documented", "the injected error is a sentinel distinct from io.EOF and io.ErrUnexpectedEOF"])
+
+
+def c04(ctx):
+    prop = "C04"
+    quick = ctx.tier == "quick"
+    ctx.build_harness()
+    cov = {}
+    _set_const(ctx, "MC_Pool.cfg", "MaxCalls", 3 if quick else 4)
+    r = ctx.tlc_expect_ok("MC_Pool.tla", "MC_Pool.cfg", timeout=6000, xmx="24g")
+    rp = os.path.join(ctx.scratch, "hist.json")
+    ctx.vdrive(["histreplay", "-in", r["out"], "-out", rp], timeout=7000)
+    os.remove(r["out"])
+    rep = ctx.report(rp)
+    trep, results = _treetrace(ctx, quick, cov, 1)
+    violations = [v for v in rep["violations"] if v["property"] == prop] + _tree_violations(results, prop)
+    cov.update(
+        evaluations=rep["evaluations"] + trep["evaluations"],
+        distinct_nontrivial=rep["extra"]["histories_with_a_call_started_from_dirty_pooled_state"],
+        rule="model: Pool.tla (Get / reset / scan / drop oversized path / Put for the parser pool, Get / Reset for the bufio pool): no call of any history of <= %d calls over an 18-operation palette (query satisfied, aborted deep parse, path of 200 keys, truncated, scalar, empty, blank lines, CSV abandoned half-way with buffered leftovers, CSV ok, 1 MB array, NDJSON, binary, failing reader, SetLimit 0 / default) starts from inherited state. every history is replayed on the real package pinned to one P with the collector off (deterministic pool reuse) and again on 8 goroutines; each call must give the answer it gives with empty pools; the hooks count parses that really started from a dirty pooled state. traces: same header with different bytes beyond the limit and different spare capacity must give identical verdicts for every consulted node and identical results (TraceTree.tla memo), caller buffer compared before / after. non-trivial = histories in which some call started from dirty pooled state" % (3 if quick else 4),
+        exhaustive=True,
+        pool_reuse=dict(parses_total=rep["extra"]["parses_total"], parses_started_dirty=rep["extra"]["parses_started_dirty"],
+                        csv_readers_taken=rep["extra"]["csv_readers_taken"], csv_readers_with_buffered_leftovers=rep["extra"]["csv_readers_with_buffered_leftovers"]),
+        samples=rep["samples"][:5] + trep["samples"][:1],
+    )
+    return core.finish(ctx, violations, cov, ["pool reuse is observed through the hooks, not assumed"])
+
+
+REGISTRY.update({"C05": c05, "C04": c04})
